@@ -552,8 +552,16 @@ def run_prop(prop: Prop, tier: str, seed: int) -> int:
         gens += list(prop.gens_random(tier, rnd))
         ctx.notes.append(f"{n_spec} cases from TLC-generated behaviours, {len(gens) - n_spec} from seeded random drivers")
         recs = []
+        harness_exc = []
         for g in gens:
-            r = prop.execute(g)
+            try:
+                r = prop.execute(g)
+            except MachineryError:
+                raise
+            except Exception as ex:  # noqa: a driver that cannot cope with what the library did
+                import traceback
+                harness_exc.append((f"{type(ex).__name__}: {ex}", traceback.format_exc(limit=4), g))
+                continue
             if r is None:
                 continue
             if isinstance(r, list):
@@ -566,7 +574,15 @@ def run_prop(prop: Prop, tier: str, seed: int) -> int:
         for mod, rs in by_mod.items():
             validate_records(ctx, rs, module=mod)
         prop.extra_checks(ctx)
-        return finish(ctx)
+        if harness_exc:
+            ctx.notes.append(f"{len(harness_exc)} cases raised inside the driver: {harness_exc[0][0]}")
+        rc = finish(ctx)
+        if harness_exc and rc == 0:
+            # no verdict may be drawn from cases the driver could not execute or project
+            print(f"MACHINERY-ERROR property={prop.id}: {len(harness_exc)} cases raised inside the driver, first: "
+                  f"{harness_exc[0][0]}\n{harness_exc[0][1]}\ncase: {json.dumps(harness_exc[0][2])[:600]}")
+            return 2
+        return rc
     except MachineryError as e:
         ctx.scratch.cleanup()
         print(f"MACHINERY-ERROR property={prop.id}: {e}")
